@@ -283,7 +283,9 @@ META_BOUNDARY = ["time: 71582789h", "time: 71582788h", "time: 1193046h 28m", "ti
                  "time: 4294967295", "time: 4294967296m", "time: 0.5 d", "time: 1 h 30 min", "time: 9999999999999999999h",
                  "servings: 4294967296", "servings: 2|2", "servings: -1", "servings: 99999999999999999999",
                  "time: 35791394h8m", "time: 35791394h7m", "time: 1h4294967295m", "time: 71582788h16m", "time: 1.5.5 h",
-                 "time: 1 lightyear", "time: . h", "tags: a,,b", "locale: en_GBX", "author: <>", "source: a <b> <c>"]
+                 "time: 1 lightyear", "time: . h", "tags: a,,b", "locale: en_GBX", "author: <>", "source: a <b> <c>",
+                 "servings: []", "serves: []", "yield: []", "servings: [0]", "servings: 0", "tags: []", "time: {}", "author: {}", "servings: [[2]]",
+                 "time: 30m1h", "time: 5m5m", "locale: en_GB_posix", "servings: 0|0"]
 
 
 def meta_boundary_corpus():
@@ -301,6 +303,13 @@ def check_c03(ctx):
     ctx.model_violation(r)
     programs = [dict(prog=p) for p in STANDARD_PROGRAMS] + [dict(prog=x["prog"]) for x in r.replay]
     recs = _corpus(ctx, want_fences=True) + meta_boundary_corpus()
+    # the boundary metadata values run through EVERY program (they are few): scale_to_servings after `servings: []`, ...
+    pinb = os.path.join(ctx.work, "inb.ndjson")
+    poutb = os.path.join(ctx.work, "callsb.ndjson")
+    core.write_ndjson(pinb, meta_boundary_corpus())
+    core.write_ndjson(os.path.join(ctx.work, "programs.ndjson"), programs)
+    core.run_harness(ctx, ["calls", "--in", pinb, "--programs", os.path.join(ctx.work, "programs.ndjson"), "--out", poutb, "--ext", "none,all",
+                           "--conv", "e,b", "--fixed", str(len(programs))])
     pin = os.path.join(ctx.work, "in.ndjson")
     pprog = os.path.join(ctx.work, "programs.ndjson")
     pout = os.path.join(ctx.work, "calls.ndjson")
@@ -329,8 +338,10 @@ def check_c03(ctx):
                            "--conv", "b", "--fixed", "2", "--rotate", "1"])
     obs2 = core.read_ndjson(pout2)
     n2, bad2, _ = core.run_judge(ctx, "Trace_Api", pout2)
-    bad = [(l, nm) for l, nm in bad] + [(len(obs) + l, nm) for l, nm in bad2]
-    obs = obs + obs2
+    obs3 = core.read_ndjson(poutb)
+    n3, bad3, _ = core.run_judge(ctx, "Trace_Api", poutb)
+    bad = [(l, nm) for l, nm in bad] + [(len(obs) + l, nm) for l, nm in bad2] + [(len(obs) + len(obs2) + l, nm) for l, nm in bad3]
+    obs = obs + obs2 + obs3
     bad.sort(key=lambda b: len(obs[b[0] - 1]["input"]))
     for line, names in bad:
         x = obs[line - 1]
